@@ -8,6 +8,7 @@ package main
 import (
 	"context"
 	"fmt"
+	"io"
 	"runtime"
 	"strings"
 	"sync"
@@ -88,6 +89,69 @@ func genFanout(r *lib.Rng) *gg.Case {
 	}
 	c := &gg.Case{Forest: []gg.Graph{{Front: "graph", Mode: "pregel", Nodes: nodes}}}
 	c.Input = gg.MapOf(gg.KV{Key: 900 + uint64(r.Intn(3)), V: gg.Atom(uint64(r.Intn(5)))})
+	return c
+}
+
+// genEmptyFanin (round 6): values that are EMPTY meet at a fan-in. START hands the input (the nil map, the empty map
+// or a small map) to 2-4 pass-through nodes, which hand it on unchanged to a join node (a lambda, a pass-through
+// node or END itself); in half of the cases a lambda next to them contributes a non-empty value. The merge of
+// empty values is a value (the empty map): the join node runs once on it, and a nil map among the values
+// contributes nothing but is not "no value".
+func genEmptyFanin(r *lib.Rng) *gg.Case {
+	k := r.Range(2, 4)
+	next := uint64(2)
+	nodes := []gg.Node{{Key: gg.START, Kind: "start"}}
+	join := uint64(gg.END)
+	joinKind := ""
+	switch r.Intn(3) {
+	case 0:
+		joinKind = "lambda"
+	case 1:
+		joinKind = "pass"
+	}
+	var senders []int
+	for i := 0; i < k; i++ {
+		nodes = append(nodes, gg.Node{Key: next, Kind: "pass"})
+		nodes[0].DSucc = append(nodes[0].DSucc, next)
+		senders = append(senders, len(nodes)-1)
+		next++
+	}
+	if r.Chance(1, 2) {
+		nodes = append(nodes, gg.Node{Key: next, Kind: "lambda"})
+		nodes[0].DSucc = append(nodes[0].DSucc, next)
+		senders = append(senders, len(nodes)-1)
+		next++
+	}
+	if joinKind != "" {
+		join = next
+		next++
+	}
+	for _, i := range senders {
+		nodes[i].DSucc = []uint64{join}
+	}
+	if joinKind != "" {
+		j := gg.Node{Key: join, Kind: joinKind, DSucc: []uint64{gg.END}}
+		if r.Chance(1, 2) {
+			// the join node decides on the size of the merge: a lambda behind a branch, or END at once
+			j.DSucc = nil
+			j.Branches = []gg.Branch{{Ends: []uint64{gg.END, next}, Table: [][]uint64{{next}, {gg.END}, {gg.END, next}}}}
+			nodes = append(nodes, j, gg.Node{Key: next, Kind: "lambda", DSucc: []uint64{gg.END}})
+		} else {
+			nodes = append(nodes, j)
+		}
+	}
+	for i := range nodes {
+		nodes[i].CSucc = append([]uint64{}, nodes[i].DSucc...)
+	}
+	c := &gg.Case{Forest: []gg.Graph{{Front: "graph", Mode: "pregel", Nodes: nodes}}}
+	switch r.Intn(3) {
+	case 0:
+		c.Input = gg.NilMap()
+	case 1:
+		c.Input = gg.MapOf()
+	default:
+		c.Input = gg.MapOf(gg.KV{Key: 900 + uint64(r.Intn(3)), V: gg.Atom(uint64(r.Intn(5)))})
+	}
 	return c
 }
 
@@ -185,6 +249,15 @@ func concurrentPhase(c *gg.Case, goroutines, perG int) (string, string) {
 			want[j] = &expect{classes: f.classes}
 		}
 	}
+	var streamOK [nv]bool
+	for j := range want {
+		streamOK[j] = streamable(c) && inputs[j].Kind == "map"
+		for _, cl := range want[j].classes {
+			if cl == clDup || cl == clType {
+				streamOK[j] = false // a stream fan-in has no duplicated-key check (F-C04): not comparable
+			}
+		}
+	}
 	var mu sync.Mutex
 	var bad string
 	var wg sync.WaitGroup
@@ -196,7 +269,15 @@ func concurrentPhase(c *gg.Case, goroutines, perG int) (string, string) {
 				j := (gi + k) % nv
 				var out gg.M
 				var err error
-				p := lib.Recover(func() { out, err = bt.R.Invoke(ctx, inputs[j].ToGo().(gg.M)) })
+				// round 6: one goroutine in four calls through Stream (overlapping runs of both forms on one compiled object)
+				viaStream := goroutines > 1 && gi%4 == 3 && streamOK[j]
+				p := lib.Recover(func() {
+					if viaStream {
+						out, err = leanStream(ctx, bt, inputs[j].ToGo().(gg.M))
+					} else {
+						out, err = bt.R.Invoke(ctx, inputs[j].ToGo().(gg.M))
+					}
+				})
 				o := &gg.Obs{}
 				switch {
 				case p != nil:
@@ -213,8 +294,12 @@ func concurrentPhase(c *gg.Case, goroutines, perG int) (string, string) {
 						if o.Class == "done" {
 							got = o.Result.String()
 						}
-						bad = fmt.Sprintf("a run on input %s that overlapped with other runs of the same compiled graph gave %s (%s); the superstep semantics of that input gives %s",
-							inputs[j].String(), o.Class, got, want[j].String())
+						how := ""
+						if viaStream {
+							how = " (through Stream)"
+						}
+						bad = fmt.Sprintf("a run on input %s%s that overlapped with other runs of the same compiled graph gave %s (%s); the superstep semantics of that input gives %s",
+							inputs[j].String(), how, o.Class, got, want[j].String())
 					}
 					mu.Unlock()
 					return
@@ -283,6 +368,15 @@ func firstCallsPhase(c *gg.Case, rounds, goroutines int) (string, string) {
 	if !ok {
 		return "", ""
 	}
+	var streamOK [nv]bool
+	for j := range want {
+		streamOK[j] = streamable(c) && inputs[j].Kind == "map"
+		for _, cl := range want[j].classes {
+			if cl == clDup || cl == clType {
+				streamOK[j] = false
+			}
+		}
+	}
 	var mu sync.Mutex
 	var bad string
 	for r := 0; r < rounds && bad == ""; r++ {
@@ -313,7 +407,17 @@ func firstCallsPhase(c *gg.Case, rounds, goroutines int) (string, string) {
 					j := (gi + r + k) % nv
 					var out gg.M
 					var err error
-					p := lib.Recover(func() { out, err = bt.R.Invoke(ctx, ins[k]) })
+					// round 6: every other goroutine makes its first calls through Stream (what the stream form of a run sets
+					// up lazily must not be seen half-done either), unless the value form of that input fails at a fan-in (not
+					// comparable in stream mode, F-C04)
+					viaStream := gi%2 == 1 && streamOK[j]
+					p := lib.Recover(func() {
+						if viaStream {
+							out, err = leanStream(ctx, bt, ins[k])
+						} else {
+							out, err = bt.R.Invoke(ctx, ins[k])
+						}
+					})
 					o := &gg.Obs{}
 					switch {
 					case p != nil:
@@ -333,8 +437,12 @@ func firstCallsPhase(c *gg.Case, rounds, goroutines int) (string, string) {
 							if len(got) > 300 {
 								got = got[:300] + "..."
 							}
-							bad = fmt.Sprintf("one of the FIRST runs of a freshly compiled graph, started together with %d others, on input %s gave %s (%s); the superstep semantics of that input gives %s",
-								goroutines-1, inputs[j].String(), o.Class, got, want[j].String())
+							how := "Invoke"
+							if viaStream {
+								how = "Stream"
+							}
+							bad = fmt.Sprintf("one of the FIRST runs of a freshly compiled graph (through %s), started together with %d others, on input %s gave %s (%s); the superstep semantics of that input gives %s",
+								how, goroutines-1, inputs[j].String(), o.Class, got, want[j].String())
 						}
 						mu.Unlock()
 						return
@@ -363,3 +471,25 @@ func firstCallsPhase(c *gg.Case, rounds, goroutines int) (string, string) {
 }
 
 func runtime_Gosched() { runtime.Gosched() }
+
+// leanStream: Runnable.Stream and the concatenation of its chunks, without the watchdog and the settle period of
+// invokeEntry (which counts goroutines and cannot be used while other runs are going on)
+func leanStream(ctx context.Context, bt *gg.Built, in gg.M) (gg.M, error) {
+	sr, err := bt.R.Stream(ctx, in)
+	if err != nil {
+		return nil, err
+	}
+	defer sr.Close()
+	var chunks []gg.M
+	for {
+		ch, err := sr.Recv()
+		if err == io.EOF {
+			break
+		}
+		if err != nil {
+			return nil, err
+		}
+		chunks = append(chunks, ch)
+	}
+	return concatChunks(chunks)
+}
